@@ -427,7 +427,8 @@ class FindLoops(BaseAnalysis):
 
     def handler(self, node: pr.LoopT, *args, **kwargs) -> None:
         """Make a (flat) list of the discovered loops."""
-        self.loops.append(node)
+        if isinstance(node, (pr.While, pr.DoWhile, pr.For)):
+            self.loops.append(node)
 
     def DoWhile(self, node: pr.DoWhile, *args, **kwargs):
         self.handler(node, *args, **kwargs)
@@ -495,7 +496,8 @@ class Variables(BaseAnalysis):
 
     def handler(self, node: pr.Node, *args, **kwargs):
         """Record the name of a discovered variable."""
-        if hasattr(node, 'name') and node.name and isinstance(node.name, str):
+        if isinstance(node, (pr.ID, pr.Decl)) and \
+                node.name and isinstance(node.name, str):
             if node.name not in self.vars:
                 self.vars.append(node.name)
 
